@@ -683,6 +683,7 @@ impl Kernel {
                     // IORING_MSG_DATA: user_data = off, res = len.
                     self.post_raw(target, Cqe { user_data: sqe.off(), res: sqe.len() as i32, flags: 0 });
                     self.notes.push(Note::MsgRing { from: fd, to: target });
+                    crate::events::push("KMsgRing", [fd as u64, target as u64, 0, 0, 0, 0]);
                     0
                 } else {
                     -EBADFD
@@ -839,6 +840,9 @@ unsafe fn sys_enter(fd: i32, to_submit: u32, min_complete: u32, flags: u32, arg:
             consumed = if sqpoll { 0 } else { k.consume(fd, to_submit) };
             k.rings.get_mut(&fd).unwrap().flush_backlog();
         }
+        if consumed > 0 {
+            crate::sched::note_progress();
+        }
         let mut wait_result: i64 = 0;
         if flags & ENTER_GETEVENTS != 0 {
             loop {
@@ -911,6 +915,7 @@ unsafe fn sys_register(fd: i32, opcode: u32, arg: *const c_void, nr_args: u32) -
             }
             k.post_raw(target, Cqe { user_data: sqe.off(), res: sqe.len() as i32, flags: 0 });
             k.note(Note::MsgRing { from: -1, to: target });
+            crate::events::push("KMsgRing", [u64::MAX, target as u64, 1, 0, 0, 0]);
             k.note(Note::Register { ring: target, opcode, ret: 0 });
             return Some(0);
         }
